@@ -106,3 +106,59 @@ def run_stage(chk):
     chk.sample("live-timer exit: %d scenarios (1-3 applications, report periods 15-80 ms, collector latency up to 250 ms, every status "
                "class; %d of them through the real HTTP client against a server that stalls, stays silent, drops or reads slowly): "
                "%d violate the exit monitor" % (len(scs), sum(1 for x in scs if x.get("transport")), nbad))
+
+
+def worker_stage(chk):
+    """The real daemon binary in the worker role, applications connected over the agent socket to a local TLS collector,
+    then the termination request -- once, or twice (a duplicate arriving while the final flush is under way)."""
+    pid = chk.pid
+    daemon, dlog = vlib.go_build_daemon()
+    binary, blog = vlib.go_test_binary("newrelic", only=["c17", "c11w"])
+    if daemon is None or binary is None:
+        chk.fail("worker_stage_build.txt", "daemon binary or worker harness (TestVerifC11Worker) does not build against the current tree:\n"
+                 + (dlog or "")[-2500:] + (blog or "")[-2500:], no_input=True)
+        return
+    if chk.tier == "quick":
+        scs = [{"apps": 2, "delay_ms": 300, "second": "", "second_ms": 0}, {"apps": 2, "delay_ms": 300, "second": "TERM", "second_ms": 50},
+               {"apps": 3, "delay_ms": 200, "second": "TERM", "second_ms": 0}]
+    else:
+        scs = [{"apps": a, "delay_ms": d, "second": s, "second_ms": m} for a in (1, 2, 3) for d in (100, 400)
+               for (s, m) in (("", 0), ("TERM", 0), ("TERM", 150))]
+    inp, outp = os.path.join(vlib.BUILD, "c11w_in.json"), os.path.join(vlib.BUILD, "c11w_out.json")
+    json.dump({"daemon": daemon, "scenarios": scs}, open(inp, "w"))
+    if os.path.exists(outp):
+        os.remove(outp)
+    rc, log = vlib.run_go_test(binary, "TestVerifC11Worker", {"VERIF_IN": inp, "VERIF_OUT": outp}, timeout=600)
+    if rc != 0 or not os.path.exists(outp):
+        chk.fail("worker_stage_run.txt", "TestVerifC11Worker failed:\n" + log[-3000:], no_input=True)
+        return
+    obs = json.load(open(outp))
+    bad = 0
+    for i, (sc, o) in enumerate(zip(scs, obs)):
+        chk.count_case(["worker", sc, o.get("exited"), o.get("exit_status")])
+        if o.get("note"):
+            chk.notes.append("worker scenario %d could not run: %s" % (i, o["note"]))
+            continue
+        why = []
+        if not o["exited"]:
+            why.append("the worker did not exit within the bound")
+        elif o["exit_status"] != 0:
+            why.append("the worker ended with %s instead of exiting with status 0"
+                       % (("signal " + o.get("killed_by", "?")) if o["exit_status"] == -1 else ("status %d" % o["exit_status"])))
+        missing = sorted(r for r, n in o["final_metric_requests"].items() if n == 0)
+        if missing:
+            why.append("no final delivery was attempted for run(s) %s" % missing)
+        many = sorted(r for r, n in o["final_metric_requests"].items() if n > 2)
+        if many:
+            why.append("more than one final metric payload (plus its data-usage payload) for run(s) %s" % many)
+        if why:
+            bad += 1
+            chk.fail("worker_%d.json" % i, {"what": "real worker process, termination request%s: %s"
+                                            % (" followed by a second " + sc["second"] if sc["second"] else "", "; ".join(why)),
+                                            "scenario": sc, "observed": o,
+                                            "replay": "daemon -f --no-pidfile --address <sock> --cafile <ca>; connect %d applications; SIGTERM%s"
+                                            % (sc["apps"], "; a second SIG%s when the first final request has arrived" % sc["second"] if sc["second"] else "")},
+                     sig="c11-worker-" + ("second-signal" if sc["second"] else "exit"))
+    chk.cov.setdefault("stages", {})["worker"] = {"scenarios": len(scs), "violating": bad}
+    chk.sample("real worker process: %d scenarios (1-3 applications, slow final requests, a duplicate termination request in %d of them): "
+               "%d violate" % (len(scs), sum(1 for s in scs if s["second"]), bad))
